@@ -2828,9 +2828,6 @@ func (db *DB) Export(ctx context.Context, dst io.Writer) (ltx.Pos, error) {
 		walFrameOffsets[k] = v
 	}
 
-	// Release write lock, if acquired.
-	gs.write.Unlock()
-
 	// We hold SHARED so no writer can be changing the database file right now.
 	// A journal with a valid header therefore is a hot journal: the database
 	// file contains pages of a transaction that was neither committed nor
@@ -2864,6 +2861,12 @@ func (db *DB) Export(ctx context.Context, dst io.Writer) (ltx.Pos, error) {
 	if err := gs.read4.RLock(ctx); err != nil {
 		return pos, fmt.Errorf("acquire READ4 read lock: %w", err)
 	}
+
+	// Release write lock, if acquired. It is kept until the locks that block
+	// checkpoints and WAL restarts are held: a writer could otherwise commit
+	// and checkpoint in between, and the frame offsets captured above would
+	// point at frames of a truncated or restarted log.
+	gs.write.Unlock()
 
 	// Open database file.
 	dbFile, err := db.os.Open("EXPORT:DB", db.DatabasePath())
@@ -3538,9 +3541,6 @@ func (db *DB) WriteSnapshotTo(ctx context.Context, dst io.Writer) (header ltx.He
 		walFrameOffsets[k] = v
 	}
 
-	// Release write lock, if acquired.
-	gs.write.Unlock()
-
 	// Acquire the CKPT/RECOVER locks while we check reads.
 	if err := gs.ckpt.RLock(ctx); err != nil {
 		return header, trailer, fmt.Errorf("acquire CKPT read lock: %w", err)
@@ -3565,6 +3565,10 @@ func (db *DB) WriteSnapshotTo(ctx context.Context, dst io.Writer) (header ltx.He
 	if err := gs.read4.RLock(ctx); err != nil {
 		return header, trailer, fmt.Errorf("acquire READ4 read lock: %w", err)
 	}
+
+	// Release write lock, if acquired. It is kept until the locks that block
+	// checkpoints and WAL restarts are held, see Export().
+	gs.write.Unlock()
 
 	// Release CKPT & RECOVER locks since we have the read locks.
 	gs.ckpt.Unlock()
